@@ -196,7 +196,12 @@ func PCastle(shard, n int, level int, emit Emit) {
 // PEP: capturer pawn beside a just double-pushed enemy pawn (all 14 ordered file pairs), ep set,
 // both kings anywhere, one further enemy piece anywhere (kinds), optionally a second capturer on the other side.
 // Shards = capturing side's king square.
-func PEP(shard, n int, kinds []int8, second bool, emit Emit) {
+func PEP(shard, n int, kinds []int8, second bool, emit Emit) { pep(shard, n, kinds, second, false, emit) }
+
+// PEPOwn: as PEP but the extra piece belongs to the capturing side (discovered checks by the capture).
+func PEPOwn(shard, n int, kinds []int8, emit Emit) { pep(shard, n, kinds, false, true, emit) }
+
+func pep(shard, n int, kinds []int8, second bool, own bool, emit Emit) {
 	for _, white := range []bool{true, false} { // white = capturer colour
 		sg := int8(1)
 		r := 4 // capturer rank index (5th rank)
@@ -252,6 +257,9 @@ func PEP(shard, n int, kinds []int8, second bool, emit Emit) {
 										continue
 									}
 									p.B[s] = -sg * k
+									if own {
+										p.B[s] = sg * k
+									}
 									if p.Valid() {
 										emit(p)
 									}
